@@ -335,3 +335,89 @@ def tail_expr(body):
 def match_arms(m):
     """For a match node: list of (pattern canonical text, body)."""
     return [(canon_pat(a["pat"]), a["body"]) for a in m["arms"]]
+
+
+# ---------------------------------------------------------------------------
+# Straight-line boolean functions with early returns
+
+class _Ret(Exception):
+    def __init__(self, v):
+        self.v = v
+
+
+def eval_fn(body, val, is_atom=None, leaf=False):
+    """Evaluate a function body of the shape
+         [let x = e;]* [if c { return v; }]* tail
+    under an assignment of atoms. Statements without `return` are ignored. With
+    leaf=True the result is the canonical text of the selected leaf expression."""
+    env = LetEnv(body)
+
+    def ev(e):
+        if leaf:
+            return decide(e, val, env, is_atom)
+        return evalb(e, val, env, is_atom)
+
+    def run_block(b):
+        for st in b.get("stmts", []):
+            s = st["e"] if st.get("k") == "semi" else st
+            k = s.get("k")
+            if k == "ret":
+                raise _Ret(ev(s["e"]))
+            if k == "if":
+                if not find(s, lambda x: x.get("k") == "ret"):
+                    continue
+                if evalb(s["c"], val, env, is_atom):
+                    run_nested(s["t"])
+                elif "e" in s:
+                    run_nested(s["e"])
+            elif k in ("match", "loop", "block") and find(s, lambda x: x.get("k") == "ret"):
+                raise NotBoolean("return inside %s" % k)
+        if "expr" in b:
+            t = b["expr"]
+            if t.get("k") == "ret":
+                raise _Ret(ev(t["e"]))
+            if t.get("k") == "if" and find(t, lambda x: x.get("k") == "ret") and "e" not in t:
+                if evalb(t["c"], val, env, is_atom):
+                    run_nested(t["t"])
+                return None
+            return ev(t)
+        return None
+
+    def run_nested(b):
+        b = b if b.get("k") == "block" else {"k": "block", "stmts": [], "expr": b}
+        r = run_block(b)
+        if r is not None:
+            raise _Ret(r)
+
+    try:
+        return run_block(body)
+    except _Ret as r:
+        return r.v
+
+
+def fn_atoms(body, is_atom=None):
+    """Atoms of all conditions / returned expressions of a straight-line boolean fn."""
+    env = LetEnv(body)
+    out = []
+
+    def visit_block(b):
+        for st in b.get("stmts", []):
+            s = st["e"] if st.get("k") == "semi" else st
+            if s.get("k") == "ret" and "e" in s:
+                atoms(s["e"], env, is_atom, out)
+            elif s.get("k") == "if" and find(s, lambda x: x.get("k") == "ret"):
+                atoms(s["c"], env, is_atom, out)
+                visit_block(s["t"] if s["t"].get("k") == "block" else {"stmts": [], "expr": s["t"]})
+                if "e" in s:
+                    visit_block(s["e"] if s["e"].get("k") == "block" else {"stmts": [], "expr": s["e"]})
+        if "expr" in b:
+            t = b["expr"]
+            if t.get("k") == "ret":
+                atoms(t["e"], env, is_atom, out)
+            elif t.get("k") == "if" and find(t, lambda x: x.get("k") == "ret") and "e" not in t:
+                atoms(t["c"], env, is_atom, out)
+                visit_block(t["t"])
+            else:
+                atoms(t, env, is_atom, out)
+    visit_block(body)
+    return out
